@@ -8,8 +8,11 @@ def run(ctx):
         vlib.seq_component(ctx, "Heap-" + fl, "Heap", "MCHeap", "MC_quick.cfg" if quick else "MC_thorough.cfg",
                            "HeapTrace", "Trace.cfg", "heap", ["heapz"], walk_mode="probe" if quick else "cover",
                            rand_n=150 if quick else 3000, rand_len=90 if quick else 160,
-                           trace_every=2 if quick else 10, env={"VERIF_FLAVOUR": fl, "VERIF_MAXH": "4" if quick else "6"}, emit_from=emit)
+                           trace_every=2 if quick else 10, env={"VERIF_FLAVOUR": fl, "VERIF_MAXH": "4"}, emit_from=emit)
         emit = ctx.last_emit
+    if not quick:
+        # deeper refinement check of the code-shaped heap against the handle priority queue (no replay at this size)
+        ctx.model_check("Heap", "MCHeap", "MC_deep.cfg", tag="heap_deep")
     ctx.assumptions += ["elements are (priority, handle tag) compared on the priority only, so ties are frequent and distinguishable",
                         "Pop/Peek are judged against the abstract spec (any minimal element); the exact element is compared with the code-shaped spec only as drift",
                         "the generic functions are not called with out-of-range indices (as container/heap, they do not accept them)"]
